@@ -136,6 +136,7 @@ def run(ctx, rep):
            fvl.loc(), cfgname)
     coset_structure(db, rep)
     last_layer(db, rep)
+    no_extra_rejections(db, rep)
     rep.floor('C06', 'obligations', len({o['key'] for o in rep.obligations}), 30)
 
 
@@ -276,3 +277,43 @@ def last_layer(db, rep):
         rep.ob('C06.last', 'horner-shape', {'op:mul', 'op:add'} <= ret and any(x.startswith('a1') for x in ret)
                and 'a2' in ret and any(t['f'].get('name') == 'rev' for _, t in h.calls()),
                f'horner_eval: result leaves {sorted(ret)[:8]}, iterates coefficients in reverse', h.loc(), db.config)
+
+
+# rejecting comparisons reachable from fri_verify (other than the error arms of lookups and `?`), by function and
+# relation: honest inputs pass all of them; anything else is an unexpected rejection condition (completeness)
+EXPECTED_REJECTIONS = {
+    ('swiftness_fri::fri::fri_verify', 'EQ'): 'values = queries; last layer = 2^bound',
+    ('swiftness_fri::layer::compute_coset_elements', 'NONEMPTY'): 'a sibling leaf is needed and none is left (conditional: only for positions not covered by a query)',
+    ('swiftness_fri::formula::fri_formula', 'EQ'): 'coset length = 2 (holds by construction)',
+    ('swiftness_fri::formula::fri_formula4', 'EQ'): 'coset length = 4 (holds by construction)',
+    ('swiftness_fri::formula::fri_formula8', 'EQ'): 'coset length = 8 (holds by construction)',
+    ('swiftness_fri::formula::fri_formula16', 'EQ'): 'coset length = 16 (holds by construction)',
+    ('swiftness_commitment::table::decommit::table_decommit', 'EQ'): 'cells = columns * queries',
+    ('swiftness_commitment::vector::decommit::vector_commitment_decommit', 'EQ'): 'root comparison',
+    ('swiftness_fri::last_layer::verify_last_layer', 'EQ'): 'Horner evaluation = folded value',
+}
+CONDITIONAL_ONLY = {('swiftness_fri::layer::compute_coset_elements', 'NONEMPTY')}
+
+
+def no_extra_rejections(db, rep):
+    gs = dataflow.effective_guards(db, common.FRI_VERIFY)
+    seen = {}
+    for g in gs:
+        if getattr(g, 'kind', None) in ('discr', 'bounds') or g.reject == 'panic':
+            continue
+        seen.setdefault((g.fn, g.rel), []).append(g)
+    for key, lst in sorted(seen.items()):
+        ok = key in EXPECTED_REJECTIONS
+        why = EXPECTED_REJECTIONS.get(key, '')
+        if ok and key in CONDITIONAL_ONLY:
+            # must stay conditional inside its function: an unconditional version rejects honest full cosets
+            fn = db.fns[key[0]]
+            fl = dataflow.Flow(db, fn)
+            own = [x for x in dataflow.own_guards(db, fn, fl) if x.rel == key[1] and getattr(x, 'kind', None) not in ('discr', 'bounds')]
+            ok = all(x.covers == 'some' for x in own)
+        g = lst[0]
+        rep.ob('C06.complete', f'{key[0]}|{key[1]}', ok,
+               (f'expected rejection: {why}' if ok else
+                f'unexpected rejection condition {key[1]} in {key[0].split("::")[-1]} reachable from fri_verify: honest FRI instances may be rejected'),
+               db.fns[g.fn].loc(g.line), db.config)
+    rep.floor('C06.complete', 'rejecting comparisons reachable from fri_verify', len(seen), 8)
